@@ -6,6 +6,8 @@ INVARIANT InvNoCleanupBeforeEnd
 INVARIANT InvResultsOnlyAfterJoin
 INVARIANT InvResultsOnlyOfSuccess
 INVARIANT InvProcConsistent
+INVARIANT InvNoObjectNoResources
+INVARIANT InvCleanupSignalEndsAll
 INVARIANT InvCleanupAtMostOnce
 PROPERTY RefusalIsNoOp
 PROPERTY LegalIffAllowed
